@@ -220,6 +220,37 @@ def observe(m, o):
     if k == "oracle":
         import oracles
         return oracles.run_oracle(m, o)
+    if k == "history":
+        # a fresh object: the calls change the object's state (cached runner, defaults)
+        fresh, err, why = build(dict(o["program"], obs=[]))
+        assert err is None, why
+        handles, outs = [], []
+        for c in o["calls"]:
+            try:
+                if c["call"] == "run":
+                    fresh.run(params(c), solver=c["solver"], rebuild=bool(c.get("rebuild", False)), jit=False)
+                    outs.append({"outputs": [vec(row) for row in fresh.outputs],
+                                 "derived": {k2: vec(v) for k2, v in fresh.derived_outputs.items()}})
+                elif c["call"] == "get_runner":
+                    kw = {} if c.get("dyn") is None else {"dyn_params": list(c["dyn"])}
+                    handles.append(fresh.get_runner(params(c), solver=c["solver"], jit=False, **kw))
+                    outs.append(None)
+                elif c["call"] == "runner_run":
+                    if c["k"] >= len(handles):
+                        outs.append(None)
+                        continue
+                    r = handles[c["k"]]
+                    r.run(params(c))
+                    outs.append({"outputs": [vec(row) for row in r.outputs],
+                                 "derived": {k2: vec(v) for k2, v in r.derived_outputs.items()}})
+                elif c["call"] == "set_defaults":
+                    fresh.set_default_parameters(params(c))
+                    outs.append(None)
+            except (KeyboardInterrupt, SystemExit):
+                raise
+            except BaseException as e:  # noqa
+                outs.append({"error": repr(e)[:200]})
+        return {"history": outs}
     if k == "qcomps":
         q = dict(o.get("filt") or {})
         if o.get("name"):
